@@ -1,0 +1,164 @@
+//go:build verif
+
+package massdb_v1
+
+// Contracts for govc (see /verif/DESIGN.md, C07 / C10 / C11). Comment-only; compiled only with -tags verif.
+
+// ---- MemCache: byte-exact bounds
+
+//@ spec func wfCache(c *MemCache) bool = c != nil && c.size == len(c.data) && c.size >= 0
+
+//@ func (*MemCache).Len
+//@   modifies nothing
+//@   attr pure
+//@   ensures result == cache.size
+
+//@ func (*MemCache).Update
+//@   requires size-fits: size <= 281474976710656
+//@   modifies cache.size, cache.data
+//@   ensures wf: wfCache(cache) && cache.size == size && fresh(cache.data)
+
+//@ func (*MemCache).Release
+//@   modifies cache.size, cache.data
+//@   ensures wfCache(cache) && cache.size == 0
+
+//@ func (*MemCache).WriteAt
+//@   requires wf: wfCache(cache)
+//@   requires offset-range: 0 <= offset && offset <= 281474976710656
+//@   modifies cache.data[*]
+//@   ensures in-window: offset + len(buf) <= cache.size ==> err == nil && n == len(buf)
+//@   ensures bytes: offset + len(buf) <= cache.size ==> forall j int :: 0 <= j && j < len(buf) ==> cache.data[offset + j] == old(buf[j])
+//@   ensures frame: forall k int :: 0 <= k && k < cache.size && (k < offset || k >= offset + len(buf)) ==> cache.data[k] == old(cache.data[k])
+
+//@ func (*MemCache).ReadAt
+//@   requires wf: wfCache(cache)
+//@   requires offset-range: 0 <= offset && offset <= 281474976710656
+//@   modifies buf[*]
+//@   ensures in-window: offset + len(buf) <= cache.size ==> err == nil && n == len(buf)
+
+//@ func (*MemCache).WriteToWriter
+//@   requires wf: wfCache(cache)
+//@   requires w != nil && srcStart >= 0 && len >= 0 && srcStart + len <= 281474976710656 && dstStart >= 0 && dstStart + len <= 4611686018427387904
+//@   modifies dirty
+//@   loop count invariant bounds: 0 <= count && count <= len && srcStart + len <= cache.size && srcStart < cache.size && wfCache(cache)
+//@   loop count invariant err-nil: err == nil
+//@   loop count decreases len - count
+//@   ensures whole-or-error: err == nil ==> n == len
+
+//@ func (*MemCache).ReadFromReader
+//@   requires wf: wfCache(cache)
+//@   requires r != nil && dstStart >= 0 && len >= 0 && dstStart + len <= cache.size && cache.size <= 281474976710656
+
+// ---- HashMap: representation invariant and addressing
+
+//@ spec func wfHM(hm *HashMap) bool = hm != nil && hm.data != nil && 24 <= hm.bl && hm.bl <= 40 && hm.volume == (1 << hm.bl) && hm.recordSize == (hm.bl + 7) / 8 && hm.offset == 4096
+//@ spec func idxA(key int, bl int) int = ite(key < (1 << (bl - 1)), 2 * key, 2 * ((1 << bl) - 1 - key) + 1)
+
+//@ func (*HashMap).UpdateCheckpoint
+//@   requires hm.data != nil
+//@   requires data-durable-first: !dirty[hm.data]
+//@   modifies dirty[hm.data]
+
+//@ func (*HashMap).ReadCheckpoint
+//@   requires hm.data != nil
+//@   modifies nothing
+
+//@ func (*HashMapA).Progress
+//@   modifies nothing
+//@   ensures plotted-iff-complete: result0 == (hm.HashMap.checkpoint >= hm.HashMap.volume) && result1 == hm.HashMap.checkpoint
+
+//@ func (*HashMapB).Progress
+//@   modifies nothing
+//@   ensures plotted-iff-complete: result0 == (hm.HashMap.checkpoint >= hm.HashMap.volume / 2) && result1 == hm.HashMap.checkpoint
+
+//@ func (*HashMapA).Get
+//@   requires wf: wfHM(hm.HashMap) && hm.half == hm.HashMap.volume / 2
+//@   requires key-range: key < hm.HashMap.volume
+//@   assert-at call ReadAt addr: arg2 == 4096 + idxA(old(key), hm.HashMap.bl) * hm.HashMap.recordSize && len(arg1) == hm.HashMap.recordSize
+//@   ensures err == nil ==> len(result0) == hm.HashMap.recordSize
+
+//@ func (*HashMapA).Set
+//@   requires wf: wfHM(hm.HashMap) && hm.half == hm.HashMap.volume / 2
+//@   requires key-range: key < hm.HashMap.volume
+//@   requires value-len: len(value) >= hm.HashMap.recordSize
+//@   assert-at call WriteAt addr: arg2 == 4096 + idxA(old(key), hm.HashMap.bl) * hm.HashMap.recordSize && len(arg1) == hm.HashMap.recordSize
+
+//@ func (*HashMapB).Get
+//@   requires wf: wfHM(hm.HashMap)
+//@   requires key-range: key < hm.HashMap.volume
+//@   assert-at call ReadAt addr: arg2 == 4096 + key * 2 * hm.HashMap.recordSize && len(arg1) == 2 * hm.HashMap.recordSize
+//@   ensures err == nil ==> len(result0) == hm.HashMap.recordSize && len(result1) == hm.HashMap.recordSize
+
+//@ func (*HashMapB).Set
+//@   requires wf: wfHM(hm.HashMap)
+//@   requires key-range: key < hm.HashMap.volume
+//@   requires value-len: len(x) >= hm.HashMap.recordSize && len(xp) >= hm.HashMap.recordSize
+//@   assert-at call WriteAt#1 addr-x: arg2 == 4096 + key * 2 * hm.HashMap.recordSize && len(arg1) == hm.HashMap.recordSize
+//@   assert-at call WriteAt#2 addr-xp: arg2 == 4096 + key * 2 * hm.HashMap.recordSize + hm.HashMap.recordSize && len(arg1) == hm.HashMap.recordSize
+
+// ---- memory sizing
+
+//@ func makeAvailableMemory
+//@   requires cache != nil && minMem > 0 && maxMem <= 281474976710656
+//@   modifies cache.size, cache.data
+//@   ensures sized: err == nil ==> wfCache(cache) && fresh(cache.data) && (cache.size == min(requiredMem, maxMem) || (minMem <= cache.size && cache.size < min(requiredMem, maxMem)))
+
+//@ func (*HashMapA).makeAvailableMemory
+//@   requires cache != nil
+//@   modifies cache.size, cache.data
+//@   ensures sized: err == nil ==> wfCache(cache) && fresh(cache.data) && (cache.size == min(requiredMem, 4294967296) || (268435456 <= cache.size && cache.size < min(requiredMem, 4294967296)))
+
+//@ func (*HashMapB).makeAvailableMemory
+//@   requires cache != nil
+//@   modifies cache.size, cache.data
+//@   ensures sized: err == nil ==> wfCache(cache) && fresh(cache.data) && (cache.size == min(requiredMem, 4294967296) || (268435456 <= cache.size && cache.size < min(requiredMem, 4294967296)))
+
+// ---- the two plotting passes (C07 item 3, C10 items 1-3)
+
+//@ spec func wfMapA(a *HashMapA) bool = a != nil && wfHM(a.HashMap) && a.half == a.HashMap.volume / 2
+//@ spec func wfMapB(b *HashMapB) bool = b != nil && wfHM(b.HashMap)
+
+//@ func (*MassDBV1).prePlotWork
+//@   requires cache != nil && wfMapA(mdb.HashMapA) && mdb.pubKey != nil
+//@   requires clean-at-start: !dirty[mdb.HashMapA.HashMap.data]
+//@   loop startPoint invariant wf-a: hmA == mdb.HashMapA && wfMapA(hmA)
+//@   loop startPoint invariant wf-b: cache != nil
+//@   loop startPoint invariant wf-c: recordSize == hmA.HashMap.recordSize
+//@   loop startPoint invariant wf-e: bl == hmA.HashMap.bl
+//@   loop startPoint invariant wf-d: half == hmA.HashMap.volume / 2
+//@   loop startPoint invariant window-tiling: startPoint <= hmA.HashMap.volume || startPoint == checkpoint
+//@   loop startPoint invariant clean: !dirty[hmA.HashMap.data]
+//@   loop startPoint decreases hmA.HashMap.volume - startPoint
+//@   loop x invariant wf-inner: hmA == mdb.HashMapA && wfMapA(hmA) && wfCache(cache) && recordSize == hmA.HashMap.recordSize && bl == hmA.HashMap.bl && half == hmA.HashMap.volume / 2
+//@   loop x invariant window: startPoint <= endPoint && endPoint <= hmA.HashMap.volume && (endPoint - startPoint) * recordSize <= cache.size
+//@   loop x invariant clean-inner: !dirty[hmA.HashMap.data]
+//@   loop x decreases hmA.HashMap.volume - x
+//@   assert-at call WriteAt in-window: 0 <= arg2 && arg2 + len(arg1) <= cache.size && len(arg1) == recordSize
+//@   assert-at call WriteToWriter window-bytes: arg4 == 4096 + startPoint * recordSize && arg5 == cache.size && arg3 == 0 && cache.size >= (endPoint - startPoint) * recordSize
+//@   assert-at call WriteToWriter clean-before-data: !dirty[hmA.HashMap.data]
+//@   assert-at call UpdateCheckpoint#1 checkpoint-not-ahead: hmA.HashMap.checkpoint <= endPoint
+//@   assert-at call UpdateCheckpoint#2 final: hmA.HashMap.checkpoint == hmA.HashMap.volume
+//@   ensures complete: err == nil ==> mdb.HashMapA.HashMap.checkpoint == mdb.HashMapA.HashMap.volume
+
+//@ func (*MassDBV1).plotWork
+//@   requires cache != nil && wfMapA(mdb.HashMapA) && wfMapB(mdb.HashMapB) && mdb.HashMapA.HashMap.bl == mdb.HashMapB.HashMap.bl && mdb.pubKey != nil
+//@   requires clean-at-start: !dirty[mdb.HashMapB.HashMap.data]
+//@   attr wraps checkpoint*2
+//@   requires distinct-files: mdb.HashMapA.HashMap.data != mdb.HashMapB.HashMap.data
+//@   loop startPoint invariant wf: hmA == mdb.HashMapA && hmB == mdb.HashMapB && wfMapA(hmA) && wfMapB(hmB) && cache != nil && hmA.HashMap.bl == hmB.HashMap.bl && bl == hmA.HashMap.bl && recordSize == hmB.HashMap.recordSize && half == hmB.HashMap.volume / 2 && len(bs) == 2 * recordSize
+//@   loop startPoint invariant window-tiling: startPoint <= half || startPoint == checkpoint
+//@   loop startPoint invariant clean: !dirty[hmB.HashMap.data]
+//@   loop startPoint decreases half - startPoint
+//@   loop y invariant wf-inner: hmA == mdb.HashMapA && hmB == mdb.HashMapB && wfMapA(hmA) && wfMapB(hmB) && wfCache(cache) && bl == hmA.HashMap.bl && recordSize == hmB.HashMap.recordSize && half == hmB.HashMap.volume / 2 && len(bs) == 2 * recordSize
+//@   loop y invariant window: startPoint <= endPoint && endPoint <= half && doubleStartPoint == 2 * startPoint && doubleEndPoint == 2 * endPoint && (endPoint - startPoint) * recordSize * 4 <= cache.size
+//@   loop y invariant clean-inner: !dirty[hmB.HashMap.data]
+//@   loop y decreases half - y
+//@   assert-at call WriteAt in-window: 0 <= arg2 && arg2 + len(arg1) <= cache.size && len(arg1) == recordSize
+//@   assert-at call WriteToWriter window-bytes: arg4 == 4096 + startPoint * recordSize * 4 && arg5 == cache.size && arg3 == 0 && cache.size >= (endPoint - startPoint) * recordSize * 4
+//@   assert-at call WriteToWriter clean-before-data: !dirty[hmB.HashMap.data]
+//@   assert-at call UpdateCheckpoint#1 checkpoint-not-ahead: hmB.HashMap.checkpoint <= endPoint
+//@   assert-at call UpdateCheckpoint#2 final: hmB.HashMap.checkpoint == half
+//@   ensures complete: err == nil ==> mdb.HashMapB.HashMap.checkpoint == mdb.HashMapB.HashMap.volume / 2
+
+//@ func (*MassDBV1).plotWork$1
+//@   loop i invariant i-range: 0 <= i
